@@ -76,6 +76,15 @@ impl SegmentIndexWriter {
                     format!("Failed to write index to file: {}. {error}", self.file_path)
                 })
                 .map_err(|_| IggyError::CannotSaveIndexToSegment)?;
+            // A tokio file completes the write in the background; wait for it before the
+            // published index size grows, otherwise a reader can hit the end of the file.
+            self.file
+                .flush()
+                .await
+                .with_error_context(|error| {
+                    format!("Failed to flush index file: {}. {error}", self.file_path)
+                })
+                .map_err(|_| IggyError::CannotSaveIndexToSegment)?;
         }
         if self.fsync {
             let _ = self.fsync().await;
